@@ -44,38 +44,33 @@ struct step_file {
 #ifdef ROBSD_VERIF
 /*
  * Verification hook: named synchronisation points.  When ROBSD_VERIF_SYNC
- * names a directory holding the FIFOs "report" and "go.<ROBSD_VERIF_SYNC_ID>",
- * report the point to the external scheduler and wait for its go-ahead.
- * Does nothing unless the variable is set.
+ * names a directory, the n:th point reached by this process is appended to
+ * "<dir>/report.<ROBSD_VERIF_SYNC_ID>" and the process waits for the external
+ * scheduler to create "<dir>/go.<id>.<n>".  Does nothing unless the variable
+ * is set.
  */
 static void
 verif_sync(const char *point)
 {
-	char path[PATH_MAX], msg[128];
+	static int seq;
+	char path[PATH_MAX];
 	const char *dir, *id;
-	char ch;
-	int fd, n;
+	FILE *fh;
 
 	dir = getenv("ROBSD_VERIF_SYNC");
 	id = getenv("ROBSD_VERIF_SYNC_ID");
 	if (dir == NULL || id == NULL)
 		return;
-	(void)snprintf(path, sizeof(path), "%s/report", dir);
-	fd = open(path, O_WRONLY);
-	if (fd == -1)
+	seq++;
+	(void)snprintf(path, sizeof(path), "%s/report.%s", dir, id);
+	fh = fopen(path, "a");
+	if (fh == NULL)
 		return;
-	n = snprintf(msg, sizeof(msg), "%s %s\n", id, point);
-	if (write(fd, msg, (size_t)n) == -1) {
-		close(fd);
-		return;
-	}
-	close(fd);
-	(void)snprintf(path, sizeof(path), "%s/go.%s", dir, id);
-	fd = open(path, O_RDONLY);
-	if (fd == -1)
-		return;
-	(void)read(fd, &ch, 1);
-	close(fd);
+	fprintf(fh, "%d %s\n", seq, point);
+	fclose(fh);
+	(void)snprintf(path, sizeof(path), "%s/go.%s.%d", dir, id, seq);
+	while (access(path, F_OK) == -1)
+		usleep(200);
 }
 #define VERIF_SYNC(point) verif_sync(point)
 #else
